@@ -1,6 +1,7 @@
 package props
 
 import (
+	"os"
 	"fmt"
 	"go/token"
 	"go/types"
@@ -421,6 +422,39 @@ func payloadProgress(c *core.Ctx, r16 *core.Rule) {
 					why := "no guard establishes n >= 1"
 					if pa.LBNoWrap >= 1 {
 						why = "n is computed in a narrow unsigned type and wraps to 0 for large field values, and the dominating guards test the wrapped value itself"
+					}
+					// a zero advance only matters if the same bytes can come back to this decoder
+					dg := getDecGraph(p)
+					starts, selves := dg.decoderSelves(fn)
+					cyc, known := false, len(starts) > 0
+					for _, s := range starts {
+						y, k := dg.mayChainToSelf(s, selves)
+						cyc = cyc || y
+						known = known && k
+					}
+					if os.Getenv("GPV_DEBUG_DEC") != "" {
+						fmt.Println("DEBUG DEC", core.FnKey(fn), "starts", len(starts), "cyc", cyc, "known", known)
+						for _, s := range starts {
+							n := dg.nextOf(s)
+							fmt.Print("   start ", core.FnKey(s), " unknown=", n.unknown, " next:")
+							for f := range n.set {
+								fmt.Print(" ", f.Name())
+							}
+							fmt.Println()
+						}
+						fmt.Print("   selves:")
+						for f := range selves {
+							fmt.Print(" ", core.FnKey(f))
+						}
+						fmt.Println()
+					}
+					if !cyc && (known || pa.Merged) {
+						reason := "n may be 0, but the decoders that can follow this one were resolved and none of them is this decoder: no cycle on the same bytes found"
+						if !known {
+							reason = "n may be 0 on one side of a merge and the decoders that can follow are not all resolved"
+						}
+						r16.Undecided(key, p.InstrPos(pa.At), reason)
+						break
 					}
 					r16.Violate(key, p.InstrPos(pa.At), "the bytes handed to the next decoder start at data[n:] with n taken from the packet and possibly 0 ("+why+"): the same bytes are decoded again and again — eager decoding recurses until the stack overflows (not recoverable), lazy decoding never finishes", nil)
 				default:
